@@ -25,7 +25,9 @@ LEVEL_TEXT = (
     "identical object; a transfer's result must have the operand's content in the requested engine (also there-and-back); "
     "materializing a leaf or a materialization must add no Materialization node.  After each materialization the tree "
     "is processed (so the node carries a payload) and factories are called directly on the bare cached node; every "
-    "program is repeated over twin leaves (same names, other rows) in the same engines."
+    "program is repeated over twin leaves (same names, other rows) in the same engines, where the original operation "
+    "relations are also re-applied (public reapply) to the twin operands.  Every relation built is materialized as a "
+    "probe (columns kept, locked nodes kept); generated materializations are compared on content."
 )
 LEVEL_NOTE = "trusts: names are unique per case (harness-chosen), ev_multi labels, harness Processor for executing multi-engine results; Processor.process itself is excluded (it re-creates markers by design)"
 RULE = (
